@@ -725,6 +725,17 @@ impl GlobalInferenceCtx<'_> {
         ExprIsConst::Const
     }
 
+    /// Whatever `get_mutability` found out about how `pointer` was computed, a place reached
+    /// through it is not mutable when the *type* of `pointer` is an immutable pointer.
+    fn through_pointer(&self, pointer: Idx<Expr>, res: ExprMutability) -> ExprMutability {
+        match (res, self.tys[self.loc][pointer].as_pointer()) {
+            (ExprMutability::Mutable, Some((false, _))) => {
+                ExprMutability::ImmutableRef(self.bodies.range_for_expr(pointer))
+            }
+            (res, _) => res,
+        }
+    }
+
     /// `deref` allows certain expressions to be mutable
     /// only if they are being mutated through a deref
     fn get_mutability(&self, expr: Idx<Expr>, assignment: bool, deref: bool) -> ExprMutability {
@@ -739,11 +750,16 @@ impl GlobalInferenceCtx<'_> {
                 // ),
                 _ => ExprMutability::ImmutableRef(self.bodies.range_for_expr(expr)),
             },
-            Expr::Deref { pointer } => self.get_mutability(*pointer, assignment, true),
-            Expr::Index { source: array, .. } => self.get_mutability(
+            Expr::Deref { pointer } => {
+                self.through_pointer(*pointer, self.get_mutability(*pointer, assignment, true))
+            }
+            Expr::Index { source: array, .. } => self.through_pointer(
                 *array,
-                assignment,
-                deref || self.tys[self.loc][*array].is_pointer(),
+                self.get_mutability(
+                    *array,
+                    assignment,
+                    deref || self.tys[self.loc][*array].is_pointer(),
+                ),
             ),
             Expr::Block {
                 tail_expr: Some(tail_expr),
@@ -832,10 +848,13 @@ impl GlobalInferenceCtx<'_> {
                             ExprMutability::ImmutableRef(field.range)
                         }
                     }
-                    _ => self.get_mutability(
+                    _ => self.through_pointer(
                         *previous,
-                        assignment,
-                        deref || previous_ty.is_pointer(),
+                        self.get_mutability(
+                            *previous,
+                            assignment,
+                            deref || previous_ty.is_pointer(),
+                        ),
                     ),
                 }
             }
